@@ -26,6 +26,7 @@ func init() {
 		Level: "exploration",
 		Rule: "programs generated scope- and type-aware over the core grammar (three profiles: deep well-typed, hostile with a buried ill-typed/wrong-arity/unbound form, builtin-focused argument sweeps); " +
 			"re-entrant forms: bounded recursions whose recursive call sits in an argument position of every kind of operator form (thread-first/thread-last steps of 1..8 elements, calls, lambda lists, let/let*, cond, if, and/or, set!, dotimes, quasiquote, sequence constructors, callbacks, handlers, flet/labels, closures), so the form is active in several activations with different values; " +
+			"empty / falsy values as data: sorted-maps, lists and vectors holding (), '(), false, 0, \"\", empty vectors and maps (literal, computed, stored by sorted-map/assoc/assoc!/cons/append/append!) read back through one accessor family (get-default with an effect-probing default, get, key?, assoc/dissoc round trips, first/second/nth/car/cdr/rest/aref, select/reject/all?/any?/map/fold predicates, optional/key/rest parameters) and decided on by if/cond/or/and/not/true?/nil?/assert with effect probes (trace event, counter, memoising assoc!) in every lazily evaluated position; " +
 			"each is run by the real interpreter (LoadString in a fresh runtime) and by the independent reference interpreter; distinct_nontrivial counts distinct (construct-or-builtin, outcome class) and (construct pair) signatures of programs on which the model made a prediction and the real run took >= 5 evaluation steps",
 		Assumptions: []string{
 			"the reference interpreter (harness/refint) encodes docs/lang.md and builtin docstrings; where they are silent it follows what the repository test-suite pins (integer wraparound, (or)->false, exact-division rule of /, one loop binding for dotimes)",
@@ -210,7 +211,8 @@ func c01Layout(r *fw.RNG) *sx.Layout {
 var c01Sigs = refint.Signatures()
 
 // builtins whose results name process state the model does not mirror
-var c01SweepSkip = map[string]bool{"gensym": true, "in-package": true, "use-package": true, "export": true, "load-string": true}
+// (aref: the model follows one documented case only and declines everywhere else)
+var c01SweepSkip = map[string]bool{"gensym": true, "in-package": true, "use-package": true, "export": true, "load-string": true, "aref": true}
 
 // c01Sweep builds a builtin-focused program: one modelled function or operator
 // applied to argument tuples from the full literal pool, every arity 0..max+1.
@@ -316,6 +318,7 @@ func c01Run(w *fw.W, idx int) {
 	g := gen.New(r, prof)
 	var forms []*sx.N
 	reKind := ""
+	fdKind := ""
 	if idx == 0 {
 		// a fixed program: the canonical instance of the let* shared-scope deviation
 		// (known finding), so that every run observes it whatever the seed
@@ -331,6 +334,12 @@ func c01Run(w *fw.W, idx int) {
 		// activations at once, each with values of its own
 		pname = "reentrant"
 		forms, reKind = g.ReentrantProgram()
+	} else if idx%10 == 3 {
+		// empty / falsy values as data: containers holding (), '(), false, 0, "", empty
+		// vectors and maps, read back through one family of accessors and decided on by
+		// the truthiness-branching operators, effect probes in every lazy position
+		pname = "falsy-data"
+		forms, fdKind = g.FalsyProgram()
 	} else {
 		forms = g.Program()
 	}
@@ -385,6 +394,9 @@ func c01Run(w *fw.W, idx int) {
 			if reKind != "" {
 				w.Count("reentrant_programs", 1)
 			}
+			if fdKind != "" {
+				w.Count("falsy_data_programs", 1)
+			}
 			w.Count("steps_total", real.steps)
 			w.Count("probe_events", int64(len(real.trace)))
 			if m.err != nil {
@@ -425,6 +437,11 @@ func c01Run(w *fw.W, idx int) {
 	if reKind != "" {
 		// by construction the program consists of recursions re-entering one kind of form
 		w.Violation("reentrant-form:"+reKind+":"+cls, diff, fmt.Sprintf("profile=%s kind=%s shapes=%v\nsource:\n%s\nreal: %s\nmodel: val=%v err=%v site=%s", pname, reKind, c01Shapes(g), src, real.rendered, m.val, m.err, c01Site(m.err)))
+		return
+	}
+	if fdKind != "" {
+		// by construction the program reads stored empty / falsy values through one accessor family
+		w.Violation("falsy-data:"+fdKind+":"+cls, diff, fmt.Sprintf("profile=%s accessor-family=%s\nsource:\n%s\nreal: %s\nmodel: val=%v err=%v site=%s", pname, fdKind, src, real.rendered, m.val, m.err, c01Site(m.err)))
 		return
 	}
 	if pname == "builtin-sweep" {
